@@ -165,7 +165,7 @@ impl<'a> Ctl<'a> {
         false
     }
 
-    fn balance(&mut self, f: &Func, k: usize, before: galloc::Snap, after: galloc::Snap, what: &str, indirect_record: Option<usize>) {
+    fn balance(&mut self, f: &Func, k: usize, before: galloc::Snap, after: galloc::Snap, what: &str, indirect_record: Option<(u64, usize, usize)>) {
         if !self.host.alloc_ok {
             return;
         }
@@ -177,8 +177,11 @@ impl<'a> Ctl<'a> {
         let (db, dy) = (after.blocks - before.blocks, after.bytes - before.bytes);
         let kind = if db > 0 || dy > 0 { "leak" } else { "over-free" };
         // the known defect: exactly the caller-allocated parameter record of an async export stays live
-        if let Some(size) = indirect_record {
-            if db == 1 && dy == size as isize {
+        if let Some((base, size, align)) = indirect_record {
+            if db == 1 && dy == size as isize && galloc::block_info(base as usize) == Some((size, align, true)) {
+                // the host takes the record back so that the ledger (and Miri's / valgrind's leak
+                // check at exit) stay meaningful for everything else
+                unsafe { std::alloc::dealloc(base as usize as *mut u8, std::alloc::Layout::from_size_align(size, align).unwrap()) };
                 self.host.rep.count("known_indirect_param_record_leaks");
                 let msg = format!(
                     "async export `{}` ({} flat parameters > 16): the caller-allocated parameter record ({} bytes) is never freed by the generated async-lift glue ({}) [opts {}]",
@@ -418,15 +421,15 @@ impl<'a> Ctl<'a> {
         });
         sched::begin(vec![], 0, seed_for(self.seed, &key, k, "sched"), 96);
         let before = galloc::snapshot();
-        let mut record: Option<usize> = None;
+        let mut record: Option<(u64, usize, usize)> = None;
         let flat: Result<Vec<CoreVal>, String> = with_shared(|sh| {
             let mem = &mut sh.mem;
             mem.begin_call();
             let abi = &self.host.abi;
             if sig.indirect_params {
                 let (size, align) = abi.record_layout(&f.params);
-                record = Some(size);
                 let base = mem.alloc(size, align)?;
+                record = Some((base, size, align));
                 let offs = abi.field_offsets(&f.params);
                 for ((v, t), o) in args.iter().zip(&f.params).zip(offs) {
                     abi.store(mem, v, t, base + o as u64)?;
